@@ -1269,6 +1269,24 @@ def check(ck):
     ok, where_r, stores, shapes, n_sites = reserved_key_clause(fl)
     ck.ob(R1, HK_Q + "::reserved-key", bool(ok), "context args enter the hash under %r iff non-empty" % RESERVED if ok else
           "context args are not added to the hash input under %r exactly when non-empty" % RESERVED, where_r)
+    # the reserved key shares a mapping with the bound parameters: a function with a parameter of that name must be refused
+    # before the hash is taken, or its parameter is overwritten by the context args in the hash input (D51)
+    from .effects import Assume
+
+    def _collides(e):
+        if isinstance(e, ast.Compare) and len(e.ops) == 1 and isinstance(e.ops[0], (ast.In, ast.NotIn)) and A.const_str(e.left) == RESERVED:
+            return isinstance(e.ops[0], ast.In)
+        if isinstance(e, ast.Call) and A.call_attr(e) in ("__contains__", "get") and e.args and A.const_str(e.args[0]) == RESERVED:
+            return True
+        return None
+    hits = [n_ for n_ in init.cfg.nodes if n_.kind == "test" and n_.ast is not None and any(_collides(x) is not None for x in ast.walk(init.expand(n_.ast, n_.id)))]
+    asm = Assume(init, _collides)
+    live = asm.reach()
+    okp = bool(hits) and fl.hash_at not in live
+    ck.ob(R1, HK_Q + "::reserved-key-not-a-parameter", okp, "a parameter called %r is refused before the hash is taken" % RESERVED if okp else
+          "the context args are hashed under %r in the same mapping as the bound parameters and nothing refuses a parameter of that name: "
+          "for such a function the context args overwrite the parameter in the hash input, so f(p1) and f(p2) under the same context "
+          "args share one stored result" % RESERVED, where_r)
     # every case of the hash input starts from a copy of the finished effective kwargs
     okc = bool(hks) and ek is not None
     # (a case in which the hash input is the effective kwargs themselves is as good as a copy as long as the reserved
